@@ -6,6 +6,7 @@ from .rules import dd_rules as D
 from .rules import store_rules as T
 from .rules import gap_rules as GR
 from .rules import fringe_rules as FR
+from .rules import width_rules as WR
 
 COMMON_ASSUME = [
     'rustc MIR construction, name resolution and the fact extractor (engine/factsdrv) are trusted',
@@ -46,6 +47,7 @@ RULE_FUNCS = [
     (D.r_flags, ['R06.4']),
     (D.r_pooled_layers, ['R15.1', 'R15.2', 'R15.3']),
     (GR.r_gap, ['R17']),
+    (WR.r_width_combinators, ['R13.c']),
     (FR.r_simple_fringe, ['R11.a']),
     (FR.r_maxub, ['R11.b']),
     (FR.r_nodup, ['R11.c', 'R11.d', 'R11.e', 'R11.g']),
